@@ -1,6 +1,8 @@
 import PyamgV.Props.Restate
 import PyamgV.Proofs.C01Solve
 import PyamgV.Proofs.C01Store
+import PyamgV.Proofs.ExtSolvePathEx
+import PyamgV.Proofs.ExtSolvePathK
 
 /-! # C01 — stand-alone multigrid solve: termination, tolerance and truthful reporting
 
@@ -58,5 +60,33 @@ example : (fun (t : Trace Nat) => (t.heap.toList, t.bUsed, t.ret, t.cb, t.writes
     (solveStore (fun x b => (x.zip b).map (fun p => p.1 + p.2)) (fun b => b) (fun c => c.map (fun _ => 0)) id
       ⟨true, false, false, false, false, false⟩ 2 #[[1, 2], [3, 4], [9]] 0 1) =
     ([[1, 2], [3, 4], [9], [5, 8]], 0, 3, [3, 3], [3, 3]) := by decide
+
+/-! ## the loop on concrete cycle models (extension E17, Proofs/ExtSolvePath*.lean)
+
+The cycle is a parameter of everything above.  `SolvePath.solvePyM` instantiates it with C03's dense model of
+`__solve` (`cycM`), `SolvePath.solvePyK` with C02's arrays-and-kernels model (`C02.cycle`); the driver runs
+`solvePyM` with the exact residual test (`ext_e17_solve`) against the real `solve` in the C03 check. -/
+
+/-- (E17) any measure of the iterate that the loop body never increases (under an invariant it preserves) is
+non-increasing along the iterates, at most its start value at the returned vector, and non-increasing along the
+list of callback arguments; all options, every tolerance test, `maxiter ≥ 1` -/
+restate solvePy_measure_monotone := PyamgV.SolvePath.solvePy_measure_monotone
+/-- (E17) the loop on C03's cycle is the bookkeeping loop on C03's `stepM` seen through the options … -/
+restate solvePy_on_cycM_eq := PyamgV.SolvePath.solvePyM_eq
+/-- (E17) … and returns the vector C03's loop model `solveM` returns -/
+restate solvePy_on_cycM_returns_solveM := PyamgV.SolvePath.solvePyM_x
+/-- (E17) error propagation `e_k = (I − M A)^k e_0` for the returned vector and the callback arguments, with `k`,
+`info` and the stopping rule of `solvePy_spec` -/
+restate solvePy_on_cycM_error_propagation := PyamgV.SolvePath.solvePyM_error_propagation
+/-- (E17) SPD hierarchy satisfying C02's hypotheses (`WFG`): the energy norm of the error never increases along the
+iterates of the call (returned vector no worse than the start vector; callback arguments monotone) -/
+restate solvePy_on_cycM_energy_monotone := PyamgV.SolvePath.solvePyM_energy_monotone
+/-- (E17) the same for the arrays-and-kernels cycle model of C02 under the hypotheses of `model_cycle_nonexpansive` -/
+restate solvePy_on_kernel_cycle_energy_monotone := PyamgV.SolvePath.solvePyK_energy_monotone
+/-- (E17) non-vacuity of both (two-level dense hierarchy with damped Jacobi; 3-point Poisson hierarchy of C02) -/
+restate example_solvePy_on_cycM_energy := PyamgV.SolvePath.Ex.example_solve_energy
+restate example_solvePy_on_kernel_cycle_energy := PyamgV.SolvePath.example_solvePyK_energy
+/-- (E17) a concrete run with the exact residual test, all options on, evaluated by the kernel -/
+restate example_solvePy_on_cycM_run := PyamgV.SolvePath.Ex.example_run
 
 end PyamgV.Props.C01
